@@ -26,11 +26,11 @@ theorem SegExt.trans {b1 b2 b3 : Bucket} (h12 : SegExt b1 b2) (h23 : SegExt b2 b
   obtain ⟨r3, l3, e3, p3, le3⟩ := h23 id r2 l2 e2
   exact ⟨r3, l3, e3, p2.trans p3, Nat.le_trans le2 le3⟩
 
-theorem segRecs_live (b : Bucket) : segRecs b b.live.id = some (b.live.recs, b.live.durable) := by
+theorem segRecs_live_ss (b : Bucket) : segRecs b b.live.id = some (b.live.recs, b.live.durable) := by
   simp [segRecs]
 
 /-- a sealed segment found under `id` has that id, below the live id -/
-theorem segRecs_sealed {b : Bucket} (h : Inv b) {id : Nat} (hne : id ≠ b.live.id) {recs : List Placed}
+theorem segRecs_sealed_ss {b : Bucket} (h : Inv b) {id : Nat} (hne : id ≠ b.live.id) {recs : List Placed}
     {limit : Nat} (hs : segRecs b id = some (recs, limit)) :
     ∃ s, b.sealed.find? (·.id == id) = some s ∧ s ∈ b.sealed ∧ s.recs = recs ∧ endMax s.recs = limit ∧
       id < b.live.id := by
@@ -52,17 +52,17 @@ theorem segRecs_sealed {b : Bucket} (h : Inv b) {id : Nat} (hne : id ≠ b.live.
 theorem segRecs_contig {b : Bucket} (h : Inv b) {id : Nat} {recs : List Placed} {limit : Nat}
     (hs : segRecs b id = some (recs, limit)) : Contig SEGMENT_HEADER_SIZE recs := by
   by_cases hid : id = b.live.id
-  · subst hid; rw [segRecs_live] at hs
+  · subst hid; rw [segRecs_live_ss] at hs
     injection hs with hs; injection hs with h1 _; subst h1; exact h.live_contig
-  · obtain ⟨s, _, hm, hr, _⟩ := segRecs_sealed h hid hs
+  · obtain ⟨s, _, hm, hr, _⟩ := segRecs_sealed_ss h hid hs
     rw [← hr]; exact (h.sealed_ok s hm).1
 
 theorem segExt_sync {b : Bucket} (h : Inv b) : SegExt b b.sync := by
   intro id recs limit hs
   by_cases hid : id = b.live.id
-  · subst hid; rw [segRecs_live] at hs
+  · subst hid; rw [segRecs_live_ss] at hs
     injection hs with hs; injection hs with h1 h2; subst h1 h2
-    exact ⟨_, _, segRecs_live b.sync, List.prefix_refl _, h.durable_le⟩
+    exact ⟨_, _, segRecs_live_ss b.sync, List.prefix_refl _, h.durable_le⟩
   · refine ⟨recs, limit, ?_, List.prefix_refl _, Nat.le_refl _⟩
     have hb : (id == b.live.id) = false := by simpa using hid
     unfold segRecs at hs ⊢
@@ -71,9 +71,9 @@ theorem segExt_sync {b : Bucket} (h : Inv b) : SegExt b b.sync := by
 theorem segExt_commitTx (b1 : Bucket) (tx : Tx) (vs : List Nat) : SegExt b1 (b1.commitTx tx vs) := by
   intro id recs limit hs
   by_cases hid : id = b1.live.id
-  · subst hid; rw [segRecs_live] at hs
+  · subst hid; rw [segRecs_live_ss] at hs
     injection hs with hs; injection hs with h1 h2; subst h1 h2
-    exact ⟨_, _, segRecs_live (b1.commitTx tx vs), List.prefix_append _ _, Nat.le_refl _⟩
+    exact ⟨_, _, segRecs_live_ss (b1.commitTx tx vs), List.prefix_append _ _, Nat.le_refl _⟩
   · refine ⟨recs, limit, ?_, List.prefix_refl _, Nat.le_refl _⟩
     have hb : (id == b1.live.id) = false := by simpa using hid
     unfold segRecs at hs ⊢
@@ -95,7 +95,7 @@ theorem segExt_rollover {b : Bucket} (h : Inv b) (hw : b.live.writeOff > SEGMENT
     rw [h.ids.1, List.mem_range, ← h.ids.2] at this
     simp at hh; omega
   by_cases hid : id = b.live.id
-  · subst hid; rw [segRecs_live] at hs
+  · subst hid; rw [segRecs_live_ss] at hs
     injection hs with hs; injection hs with h1 h2; subst h1 h2
     refine ⟨b.live.recs, endMax b.live.recs, ?_, List.prefix_refl _, ?_⟩
     · unfold segRecs
@@ -104,7 +104,7 @@ theorem segExt_rollover {b : Bucket} (h : Inv b) (hw : b.live.writeOff > SEGMENT
         intro hn
         have := h.writeOff_eq; rw [hn, endFrom_nil] at this; omega
       exact Nat.le_trans h.durable_le (by rw [h.writeOff_eq]; exact endMax_ge_endFrom h.live_contig hne)
-  · obtain ⟨s, hf, hm, hr, hl, hlt⟩ := segRecs_sealed h hid hs
+  · obtain ⟨s, hf, hm, hr, hl, hlt⟩ := segRecs_sealed_ss h hid hs
     refine ⟨recs, limit, ?_, List.prefix_refl _, Nat.le_refl _⟩
     have hb : (id == b.live.id + 1) = false := by simp; omega
     unfold segRecs
